@@ -11,6 +11,7 @@ import (
 	"verif/engine/props/c01"
 	"verif/engine/props/c06"
 	"verif/engine/props/c13"
+	"verif/engine/props/c19"
 	"verif/engine/props/core"
 )
 
@@ -23,6 +24,7 @@ var checks = map[string]struct {
 	"C01": {"translation_validation", c01.Run},
 	"C06": {"model_checking", c06.Run},
 	"C13": {"model_checking", c13.Run},
+	"C19": {"model_checking", c19.Run},
 }
 
 func main() {
